@@ -252,6 +252,7 @@ structure CNode where
   kids    : List (List String × Kind)
   skipped : List (List String × Kind)
   typed   : Bool              -- a position of the typed document tree of `src`
+  nat     : Bool := true      -- exists in a real run (not only in the over-approximating closure over contexts)
   copy    : Bool := false     -- the local copy `resolved` that a resolver makes of a target that is itself a reference
 
 def CNode.same (a b : CNode) : Bool := a.cx == b.cx && a.src == b.src && a.ptr == b.ptr && a.kind == b.kind && a.copy == b.copy
@@ -299,7 +300,6 @@ def typedNode (j : Json) (ptr : List String) : Option CNode :=
 def nilFieldNames (parent : Kind) : List String :=
   match parent with
   | .schema => ["items", "not", "additionalProperties"]
-  | .header => ["schema"]
   | .parameter => ["schema"]
   | _ => []
 
@@ -331,7 +331,10 @@ def stepGo (fs : Files) (rootData : Option Json) (cx : Cx) (text : String) (k : 
       if !fr.startsWith "/" then .fail else
       let toks := tokensWith unescGo fr
       let dsrc := match cdoc with | some u => storeKey u | none => ""
-      match typedNode dj toks with
+      -- `Header` embeds `Parameter` without a yaml tag: drillIntoField finds no field of a header, so every
+      -- pointer that passes through a header object is a drill error (→ raw re-read)
+      let throughHeader := (List.range toks.length).any (fun i => (typedNode dj (toks.take i)).any (fun n => n.kind == .header && n.ref.isNone) && i > 0)
+      match (if throughHeader then none else typedNode dj toks) with
       | some tn => if tn.kind = k then .node ⟨cdoc, cpath⟩ ⟨cdoc, cdoc⟩ dsrc toks true load else .fail
       | none =>
         let first := toks.headD ""
@@ -340,7 +343,7 @@ def stepGo (fs : Files) (rootData : Option Json) (cx : Cx) (text : String) (k : 
           match rawAt dj toks with
           | some v => if isObj v then .node ⟨cdoc, cpath⟩ ⟨cdoc, cpath⟩ dsrc toks false load else .fail
           | none => .fail
-        else if (rawAt dj toks).isSome then .fail       -- drill succeeds, type differs: "bad data"
+        else if (rawAt dj toks).isSome && !throughHeader then .fail       -- drill succeeds, type differs: "bad data"
         else
           -- nil typed field of an existing value?
           let parent := toks.dropLast
@@ -359,6 +362,17 @@ def stepGo (fs : Files) (rootData : Option Json) (cx : Cx) (text : String) (k : 
                 match rawAt rj toks with
                 | some v => if isObj v then .node ⟨cdoc, cpath⟩ ⟨cdoc, cpath⟩ (storeKey rp) toks false load else .fail
                 | none => .fail
+
+/-- the document `resolveRefAndDocument` loads (and walks, when new) for a reference: external references
+    with a fragment, whatever the fragment turns out to name -/
+def docLoadGo (fs : Files) (cx : Cx) (text : String) : Option String :=
+  let (p, frag) := splitHash text
+  if frag.isNone || p = "" then none
+  else
+    let u := resolvePathGo cx.path p
+    match fetch fs u with
+    | some j => if isObj j then some u else none
+    | none => none
 
 /-! ### Specification side: raw files only -/
 
@@ -401,20 +415,39 @@ def specDesignates (fs : Files) (rootData : Option Json) : Nat → Option String
           | some t' => specDesignates fs rootData f file t' k
           | none => some (file, v)
 
-/-- all references reachable from the root document through designated objects: (rid, designated value) -/
-def specWalk (fs : Files) (rootData : Option Json) : Nat → List (Option String × Kind × Json × String) → List (String × Option Json) → List (String × Option Json)
-  | 0, _, acc => acc
-  | _, [], acc => acc
-  | f + 1, (loc, k, j, name) :: rest, acc =>
+/-- the file an external fragment reference names (RFC resolution), when it exists: the loader loads
+    documents whole, so every reference written in such a file takes part in the load -/
+def specDocOf (fs : Files) (loc : Option String) (text : String) : Option String :=
+  let (p, frag) := splitHash text
+  if p = "" || frag.isNone then none
+  else
+    let u := resolvePathRfc loc p
+    match fetch fs u with
+    | some j => if isObj j then some (storeKey u) else none
+    | none => none
+
+/-- all references that take part in the load: those reachable from the root document through designated
+    objects, and those written in documents named by external fragment references: (rid, designated value) -/
+def specWalk (fs : Files) (rootData : Option Json) : Nat → List (Option String × Kind × Json × String) → List String → List (String × Option Json) → List (String × Option Json)
+  | 0, _, _, acc => acc
+  | _, [], _, acc => acc
+  | f + 1, (loc, k, j, name) :: rest, docs, acc =>
     match refOf j with
     | some t =>
       let rid := ridOf k j [name]
-      if acc.any (·.1 = rid) then specWalk fs rootData f rest acc
+      if acc.any (·.1 = rid) then specWalk fs rootData f rest docs acc
       else
+        let item (l : Option String) (c : Child) : Option String × Kind × Json × String := (l, c.kind, c.j, c.toks.getLast?.getD "")
+        let (docs, extra) : List String × List (Option String × Kind × Json × String) := match specDocOf fs loc t with
+          | some d => if docs.contains d then (docs, []) else
+              (docs ++ [d], match fetch fs d with
+                | some dj => (docChildren dj).map (item (some d))
+                | none => [])
+          | none => (docs, [])
         match specDesignates fs rootData 64 loc t k with
-        | none => specWalk fs rootData f rest (acc ++ [(rid, none)])
+        | none => specWalk fs rootData f (rest ++ extra) docs (acc ++ [(rid, none)])
         | some (file, v) =>
-          specWalk fs rootData f (rest ++ (children k v).map (fun c => (file, c.kind, c.j, c.toks.getLast?.getD ""))) (acc ++ [(rid, some v)])
-    | none => specWalk fs rootData f (rest ++ (children k j).map (fun c => (loc, c.kind, c.j, c.toks.getLast?.getD ""))) acc
+          specWalk fs rootData f (rest ++ extra ++ (children k v).map (item file)) docs (acc ++ [(rid, some v)])
+    | none => specWalk fs rootData f (rest ++ (children k j).map (fun c => (loc, c.kind, c.j, c.toks.getLast?.getD ""))) docs acc
 
 end KinModel.LoaderJson
